@@ -97,6 +97,36 @@ pub fn diff(got: &Obs, exp: &Obs) -> Option<String> {
     None
 }
 
+/// Only what "a window whose cell (c,r) is the parent's cell" says: size and the cells reached through
+/// the two Index forms (the iterators and unchecked getters are other properties' subjects).
+pub fn diff_cells(got: &Obs, exp: &Obs) -> Option<String> {
+    macro_rules! f {
+        ($name:ident) => {
+            if got.$name != exp.$name {
+                return Some(format!("{}: got {:x?}, expected {:x?}", stringify!($name), got.$name, exp.$name));
+            }
+        };
+    }
+    f!(size);
+    f!(cells);
+    f!(rows_idx);
+    None
+}
+
+/// Observation restricted to size and the Index forms.
+pub fn observe_cells<V: TooDeeOps<u32>>(v: &V) -> Obs {
+    let (c, r) = (v.num_cols(), v.num_rows());
+    let mut o = Obs { size: v.size(), ..Default::default() };
+    for y in 0..r {
+        let row = &v[y];
+        o.rows_idx.push((row.as_ptr() as usize, row.len()));
+        for x in 0..c {
+            o.cells.push(&v[(x, y)] as *const u32 as usize);
+        }
+    }
+    o
+}
+
 /// Size of the window (start, end) per the property: end-start, or (0,0) if either extent is zero.
 pub fn win_size(s: Coordinate, e: Coordinate) -> (usize, usize) {
     let (c, r) = (e.0 - s.0, e.1 - s.1);
